@@ -76,6 +76,26 @@ def r10a(chk, rid='R10.a'):
         doms.setdefault(d, []).append(n)
     clash = {d: v for d, v in doms.items() if len(v) > 1}
     chk.ob(rid, PROPS, '_toDOMname', 'DOM names are unique', not clash, str(clash))
+    # nothing defined in the declaration-block class itself may hide a generated accessor: the accessors live on
+    # the base class CSS2Properties, so a method or class attribute of the same name wins in the MRO
+    dm0 = chk.repo.mod(DECL)
+    cls_node = next((n for n in ast.walk(dm0.tree) if isinstance(n, ast.ClassDef) and n.name == 'CSSStyleDeclaration'), None)
+    if cls_node is None:
+        raise AnalysisError('class CSSStyleDeclaration not found')
+    own = {}
+    for st in cls_node.body:
+        if isinstance(st, (ast.FunctionDef, ast.AsyncFunctionDef, ast.ClassDef)):
+            own.setdefault(st.name, st.lineno)
+        elif isinstance(st, (ast.Assign, ast.AnnAssign, ast.AugAssign)):
+            for t in (st.targets if isinstance(st, ast.Assign) else [st.target]):
+                for nm in ast.walk(t):
+                    if isinstance(nm, ast.Name):
+                        own.setdefault(nm.id, st.lineno)
+    if len(own) < 15:
+        raise AnalysisError(f'only {len(own)} names found in the body of CSSStyleDeclaration')
+    hidden = sorted(set(own) & set(doms))
+    chk.ob(rid, DECL, 'CSSStyleDeclaration', f'no name defined in the class body ({len(own)} names) hides one of the {len(doms)} generated DOM-name accessors', not hidden,
+           '; '.join(f'`{d}` (line {own[d]}) hides the accessor of property {doms[d][0]!r}: `style.{d} = v` no longer reaches setProperty' for d in hidden))
     # the generated accessors use exactly these converters
     src = m.src
     chk.ob(rid, PROPS, '<module>', 'accessors are generated for every table key via _toDOMname / _toCSSname',
